@@ -30,6 +30,7 @@ const (
 	k1 = "key-one-aaaaaaaaaaaaaaaa"
 	k2 = "key-two-bbbbbbbbbbbbbbbb"
 	k3 = "key-never-configured-cccc"
+	k4 = "key{2024}-with-braces-dddd" // not a known placeholder: used verbatim
 )
 
 type cand struct {
@@ -50,7 +51,7 @@ func cands() []cand {
 	}
 	hs := []jwt.SigningMethod{jwt.SigningMethodHS256, jwt.SigningMethodHS384, jwt.SigningMethodHS512}
 	var l []cand
-	for _, k := range []string{k1, k2, rsaPubPEM} {
+	for _, k := range []string{k1, k2, rsaPubPEM, k4} {
 		for _, m := range hs {
 			l = append(l, cand{k, m.Alg(), m, []byte(k)})
 		}
@@ -59,7 +60,7 @@ func cands() []cand {
 }
 
 var (
-	keyUniverse    = []string{k1, k2, rsaPubPEM, ""}
+	keyUniverse    = []string{k1, k2, rsaPubPEM, k4, ""}
 	algUniverse    = []string{"HS256", "HS384", "HS512", "RS256", "ES256", "XX", "none"}
 	originUniverse = []string{"http://a.example", "https://b.example:8443", "*", "null", "a.example", "http://a.example/path", "http://u@a.example", "http://a.example?x=1", "http://c.example"}
 	probeOrigins   = []string{"http://a.example", "https://b.example:8443", "http://c.example", "http://z.example"}
@@ -108,6 +109,7 @@ type jsonFields struct {
 type input struct {
 	Form   string      `json:"form"`
 	Style  string      `json:"style,omitempty"` // transport rendering for the Caddyfile form: module | url
+	Env    string      `json:"env,omitempty"`   // MERCURE_TRANSPORT_URL: "", bolt, local
 	Ds     []directive `json:"ds,omitempty"`
 	JSON   *jsonFields `json:"json,omitempty"`
 	Legacy *legacy     `json:"legacy,omitempty"`
@@ -130,7 +132,7 @@ func pickKey(r *hx.Rng) string {
 	if r.Chance(0.06) {
 		return ""
 	}
-	return keyUniverse[r.Intn(3)]
+	return keyUniverse[r.Intn(4)]
 }
 
 func pickAlg(r *hx.Rng, key string) []string {
@@ -345,6 +347,14 @@ func provision(in *input, work string, idx int) (p *provisioned, err error) {
 			p, err = nil, fmt.Errorf("panic: %v", rec)
 		}
 	}()
+	os.Unsetenv("MERCURE_TRANSPORT_URL")
+	switch in.Env {
+	case "bolt":
+		os.Setenv("MERCURE_TRANSPORT_URL", "bolt://"+filepath.Join(work, fmt.Sprintf("env%d.db", idx)))
+	case "local":
+		os.Setenv("MERCURE_TRANSPORT_URL", "local://local")
+	}
+	defer os.Unsetenv("MERCURE_TRANSPORT_URL")
 	switch in.Form {
 	case "caddyfile":
 		m := new(mc.Mercure)
@@ -735,6 +745,9 @@ func runC19(a args) error {
 			in.Form = "legacy"
 			in.Legacy = genLegacy(r)
 		}
+		if in.Form != "legacy" && r.Chance(0.2) {
+			in.Env = r.Pick([]string{"bolt", "local"})
+		}
 		if a.only >= 0 && i != a.only {
 			continue
 		}
@@ -746,7 +759,14 @@ func runC19(a args) error {
 			p.cleanup()
 		}
 		_ = os.Remove(filepath.Join(work, "bolt.db"))
-		term := fmt.Sprintf("{| cc_input := %s; %s; cc_obs := %s |}", emitInput(in), fixed, emitObs(obs))
+		envT := "None"
+		switch in.Env {
+		case "bolt":
+			envT = "(Some TBolt)"
+		case "local":
+			envT = "(Some TLocal)"
+		}
+		term := fmt.Sprintf("{| cc_input := %s; %s; cc_env := %s; cc_obs := %s |}", emitInput(in), fixed, envT, emitObs(obs))
 		tag := in.Form + ":accepted"
 		desc := map[string]any{"input": in}
 		if perr != nil {
